@@ -4,88 +4,94 @@
            playback_rate.rs, clock/clock_speed.rs, tween/tweenable.rs (f32/f64 interpolate)
 -/
 import KiraModel.Num
+import KiraModel.GenFn
+import KiraModel.Meta
 
 namespace K
 
 variable {α : Type} [Add α] [Sub α] [Mul α] [Div α] [Neg α] [LT α] [LE α]
   [DecidableLT α] [DecidableLE α] [OfScientific α] [KOps α]
 
-/-- `Decibels::SILENCE` -/
-def silenceDb : α := -(60.0 : α)
+/-- `Decibels::SILENCE` — generated from decibels.rs (GenFn.lean) -/
+def silenceDb : α := gen_body% Gen.decibelsSilence
+gen_alias Gen.decibelsSilence => silenceDb
 
-/-- mirrors: decibels.rs::Decibels::as_amplitude (argument is an `f32` value) -/
-def asAmplitude (db : α) : α :=
-  if feq db (0.0 : α) then (1.0 : α)
-  else if db ≤ (silenceDb : α) then (0.0 : α)
-  else KOps.pow32 (10.0 : α) (KOps.r32 (db / (20.0 : α)))
+/-- mirrors: decibels.rs::Decibels::as_amplitude (argument is an `f32` value) — generated (GenFn.lean) -/
+def asAmplitude (db : α) : α := gen_body% Gen.decibelsAsAmplitude db
+gen_alias Gen.decibelsAsAmplitude => asAmplitude
 
-/-- mirrors: tweenable.rs `impl Tweenable for f64` -/
-def lerp64 (a b amount : α) : α := a + (b - a) * amount
+/-- mirrors: tweenable.rs `impl Tweenable for f64` — generated (GenFn.lean) -/
+def lerp64 (a b amount : α) : α := gen_body% Gen.f64Interpolate a b amount
+gen_alias Gen.f64Interpolate => lerp64
 
-/-- mirrors: tweenable.rs `impl Tweenable for f32` (`a + (b - a) * amount as f32`) -/
-def lerp32 (a b amount : α) : α :=
-  KOps.r32 (a + KOps.r32 (KOps.r32 (b - a) * KOps.r32 amount))
-
-/-- A stereo frame (`f32` components). mirrors: frame.rs::Frame -/
-structure Frame (α : Type) where
-  left : α
-  right : α
-deriving Repr
+/-- mirrors: tweenable.rs `impl Tweenable for f32` (`a + (b - a) * amount as f32`) — generated (GenFn.lean) -/
+def lerp32 (a b amount : α) : α := gen_body% Gen.f32Interpolate a b amount
+gen_alias Gen.f32Interpolate => lerp32
 
 namespace Frame
 def zero : Frame α := ⟨(0.0 : α), (0.0 : α)⟩
-/-- mirrors: frame.rs `impl Add for Frame` -/
-def add (a b : Frame α) : Frame α := ⟨KOps.r32 (a.left + b.left), KOps.r32 (a.right + b.right)⟩
-def sub (a b : Frame α) : Frame α := ⟨KOps.r32 (a.left - b.left), KOps.r32 (a.right - b.right)⟩
-/-- mirrors: frame.rs `impl Mul<f32> for Frame` -/
-def scale (a : Frame α) (k : α) : Frame α := ⟨KOps.r32 (a.left * k), KOps.r32 (a.right * k)⟩
-def divs (a : Frame α) (k : α) : Frame α := ⟨KOps.r32 (a.left / k), KOps.r32 (a.right / k)⟩
-def neg (a : Frame α) : Frame α := ⟨-a.left, -a.right⟩
-/-- mirrors: frame.rs::Frame::as_mono -/
-def asMono (a : Frame α) : Frame α :=
-  let m := KOps.r32 (KOps.r32 (a.left + a.right) / (2.0 : α)); ⟨m, m⟩
-/-- mirrors: frame.rs::Frame::panned -/
-def panned (f : Frame α) (panning : α) : Frame α :=
-  if feq panning (0.0 : α) then f
-  else
-    let p := clamp panning (-(1.0 : α)) (1.0 : α)
-    let m := KOps.r32 (KOps.r32 (p + (1.0 : α)) * (0.5 : α))
-    let l := KOps.r32 (f.left * KOps.r32 (KOps.sqrt (KOps.r32 ((1.0 : α) - m))))
-    let r := KOps.r32 (f.right * KOps.r32 (KOps.sqrt m))
-    ⟨KOps.r32 (l * KOps.sqrt2_32), KOps.r32 (r * KOps.sqrt2_32)⟩
+/-- mirrors: frame.rs `impl Add for Frame` — generated (GenFn.lean) -/
+def add (a b : Frame α) : Frame α := gen_body% Gen.frameAdd a b
+/-- mirrors: frame.rs `impl Sub for Frame` — generated (GenFn.lean) -/
+def sub (a b : Frame α) : Frame α := gen_body% Gen.frameSub a b
+/-- mirrors: frame.rs `impl Mul<f32> for Frame` — generated (GenFn.lean) -/
+def scale (a : Frame α) (k : α) : Frame α := gen_body% Gen.frameMulF32 a k
+/-- mirrors: frame.rs `impl Div<f32> for Frame` — generated (GenFn.lean) -/
+def divs (a : Frame α) (k : α) : Frame α := gen_body% Gen.frameDivF32 a k
+/-- mirrors: frame.rs `impl Neg for Frame` — generated (GenFn.lean) -/
+def neg (a : Frame α) : Frame α := gen_body% Gen.frameNeg a
+/-- mirrors: frame.rs::Frame::as_mono — generated (GenFn.lean) -/
+def asMono (a : Frame α) : Frame α := gen_body% Gen.frameAsMono a
+/-- mirrors: frame.rs::Frame::panned — generated (GenFn.lean) -/
+def panned (f : Frame α) (panning : α) : Frame α := gen_body% Gen.framePanned f panning
+gen_alias Gen.frameAdd => add
+gen_alias Gen.frameSub => sub
+gen_alias Gen.frameMulF32 => scale
+gen_alias Gen.frameDivF32 => divs
+gen_alias Gen.frameNeg => neg
+gen_alias Gen.frameAsMono => asMono
+gen_alias Gen.framePanned => panned
 /-- mirrors: tweenable.rs-style interpolation used on frames (`a + (b - a) * t`) -/
 def lerp (a b : Frame α) (t : α) : Frame α := add a (scale (sub b a) t)
 end Frame
 
-/-- mirrors: semitones.rs `impl From<Semitones> for PlaybackRate` -/
-def semitonesToRate (s : α) : α := KOps.pow (2.0 : α) (s / (12.0 : α))
-
-/-- mirrors: clock/clock_speed.rs::ClockSpeed -/
-inductive ClockSpeed (α : Type) where
-  | secondsPerTick (v : α)
-  | ticksPerSecond (v : α)
-  | ticksPerMinute (v : α)
-deriving Repr
+/-- mirrors: semitones.rs `impl From<Semitones> for PlaybackRate` — generated (GenFn.lean) -/
+def semitonesToRate (s : α) : α := gen_body% Gen.semitonesToPlaybackRate s
+gen_alias Gen.semitonesToPlaybackRate => semitonesToRate
 
 namespace ClockSpeed
-def asSecondsPerTick : ClockSpeed α → α
+/-- mirrors: clock_speed.rs::ClockSpeed::as_seconds_per_tick — generated (GenFn.lean) -/
+def asSecondsPerTick (s : ClockSpeed α) : α := gen_body% Gen.clockSpeedAsSecondsPerTick s
+gen_alias Gen.clockSpeedAsSecondsPerTick => asSecondsPerTick
+/-- mirrors: clock_speed.rs::ClockSpeed::as_ticks_per_second — generated (GenFn.lean) -/
+def asTicksPerSecond (s : ClockSpeed α) : α := gen_body% Gen.clockSpeedAsTicksPerSecond s
+gen_alias Gen.clockSpeedAsTicksPerSecond => asTicksPerSecond
+/-- mirrors: clock_speed.rs::ClockSpeed::as_ticks_per_minute — generated (GenFn.lean) -/
+def asTicksPerMinute (s : ClockSpeed α) : α := gen_body% Gen.clockSpeedAsTicksPerMinute s
+gen_alias Gen.clockSpeedAsTicksPerMinute => asTicksPerMinute
+/-- the number a speed holds, in its own unit -/
+def raw : ClockSpeed α → α
   | secondsPerTick v => v
-  | ticksPerSecond v => (1.0 : α) / v
-  | ticksPerMinute v => (60.0 : α) / v
-def asTicksPerSecond : ClockSpeed α → α
-  | secondsPerTick v => (1.0 : α) / v
   | ticksPerSecond v => v
-  | ticksPerMinute v => v / (60.0 : α)
-def asTicksPerMinute : ClockSpeed α → α
-  | secondsPerTick v => (60.0 : α) / v
-  | ticksPerSecond v => v * (60.0 : α)
   | ticksPerMinute v => v
-/-- mirrors: clock_speed.rs `impl Tweenable for ClockSpeed` -/
-def lerp (a b : ClockSpeed α) (t : α) : ClockSpeed α :=
+/-- the interpolation in the unit of the target speed (all of `impl Tweenable for ClockSpeed` until the repair
+    724c1bb; over ℝ it still is: `C05_speed_interpolation`) — hand-written, the reference the repaired
+    function is compared with -/
+def lerpInTargetUnit (a b : ClockSpeed α) (t : α) : ClockSpeed α :=
   match b with
   | secondsPerTick bv => secondsPerTick (lerp64 a.asSecondsPerTick bv t)
   | ticksPerSecond bv => ticksPerSecond (lerp64 a.asTicksPerSecond bv t)
   | ticksPerMinute bv => ticksPerMinute (lerp64 a.asTicksPerMinute bv t)
+/-- mirrors: clock_speed.rs::ClockSpeed::interpolate_in_unit_of_start (the interpolation in the unit of the
+    STARTING speed; the starting speed itself when that is NaN) — generated (GenFn.lean) -/
+def lerpInUnitOfStart (a b : ClockSpeed α) (t : α) : ClockSpeed α :=
+  gen_body% Gen.clockSpeedInterpolateInUnitOfStart a b t
+gen_alias Gen.clockSpeedInterpolateInUnitOfStart => lerpInUnitOfStart
+/-- mirrors: clock_speed.rs `impl Tweenable for ClockSpeed`: in the unit of the target speed; when that value
+    is not finite (the starting speed is infinite in the target's unit — 0 ticks per second is infinitely many
+    seconds per tick —, `inf + (b − inf)·t` is NaN) `interpolate_in_unit_of_start` — generated (GenFn.lean) -/
+def lerp (a b : ClockSpeed α) (t : α) : ClockSpeed α := gen_body% Gen.clockSpeedInterpolate a b t
+gen_alias Gen.clockSpeedInterpolate => lerp
 end ClockSpeed
 
 end K
